@@ -1,7 +1,7 @@
-SPECIFICATION SafetySpec
+SPECIFICATION MCSafetySpec
 CONSTANTS
   Senders <- Senders3
   Script <- Script3
-INVARIANTS TypeOK Delivered GeneralOrder LastWins FoldRefinement OneTerminate OracleAgree
-PROPERTIES Refines AbsInit
+INVARIANTS TypeOK Delivered GeneralOrder LastWins FoldRefinement OneTerminate
+PROPERTIES Refines AbsInit OracleAgree
 CHECK_DEADLOCK FALSE
